@@ -331,8 +331,12 @@ func (w *World) buildResponse(req *http.Request, a *Ans, now time.Time) (*http.R
 		w.nhop++
 		hp := "~hp" + strconv.Itoa(w.nhop) + "~"
 		w.mu.Unlock()
-		add("Connection", "X-Hop-A, keep-alive")
-		add("X-Hop-A", hp)
+		if a.Fr != 2 && a.Fr != 3 {
+			// net/http drops every Connection line of a response that says "close"
+			// (close-delimited framings), so a field named there is unknowable then
+			add("Connection", "X-Hop-A, keep-alive")
+			add("X-Hop-A", hp)
+		}
 		add("Keep-Alive", "timeout=5, x="+hp)
 		add("Proxy-Authenticate", `Basic realm="`+hp+`"`)
 		add("Proxy-Authentication-Info", hp)
@@ -344,7 +348,7 @@ func (w *World) buildResponse(req *http.Request, a *Ans, now time.Time) (*http.R
 	m["hop"] = nhop
 
 	var body []byte
-	if tok != "" && st != 204 && st != 304 && st >= 200 {
+	if tok != "" && st != 204 && st != 304 && st >= 200 && req.Method != http.MethodHead {
 		body = w.payload(a.Body, tok)
 	}
 	// wire form -> *http.Response, as a real transport would produce it
